@@ -655,10 +655,107 @@ class Check(PropertyCheck):
         finally:
             loop.close()
         rep.cov["rebound_attribute_scenarios"] = 1
+        self._argument_scenarios(rep)
         if problems:
             rep.violation({"input": "use an attribute through the proxy, re-bind it on the wrapped object, use it again",
                            "observed": problems, "required": "calls run the wrapped object's method; non-callable attributes are refused"},
                           found_input=True, signature="proxy:rebound-attribute")
+
+    def _argument_scenarios(self, rep):
+        """the call that is executed is the call that was made: positional arguments, keyword arguments (overriding a default,
+        keyword-only, **kwargs) and no arguments at all, for plain and coroutine methods, from the owner's loop and from another
+        one"""
+        import bellows.thread as bt
+        problems = []
+        SHAPES = [((), {}), ((1,), {}), ((1, 2, 3), {}), ((1,), {"b": 5}), ((), {"a": 4, "b": 5}), ((1, 2), {"k": 9}),
+                  ((1,), {"k": 9, "extra": "x", "more": None}), ((), {"k": 0}), (([1, 2],), {"b": (3,), "kw": {"d": 1}})]
+
+        class ArgTarget:
+            def __init__(self):
+                self.seen = []
+                self.lock = threading.Lock()
+
+            def plain(self, a=None, b="default", *rest, k="kdefault", **kw):
+                with self.lock:
+                    self.seen.append(("plain", (a, b, rest, k, kw), threading.get_ident()))
+
+            async def coro(self, a=None, b="default", *rest, k="kdefault", **kw):
+                with self.lock:
+                    self.seen.append(("coro", (a, b, rest, k, kw), threading.get_ident()))
+                return (a, b, rest, k, kw)
+
+            def plain_kwonly(self, a, *, page):
+                with self.lock:
+                    self.seen.append(("plain_kwonly", (a, page), threading.get_ident()))
+
+        def bound(args, kwargs):
+            def ref(a=None, b="default", *rest, k="kdefault", **kw):
+                return (a, b, rest, k, kw)
+            return ref(*args, **kwargs)
+
+        async def _tid():
+            return threading.get_ident()
+
+        async def main():
+            elt = bt.EventLoopThread()
+            await elt.start()
+            try:
+                owner_tid = await elt.run_coroutine_threadsafe(_tid())
+                errs = []
+                elt.loop.call_soon_threadsafe(elt.loop.set_exception_handler, lambda lp, ctx: errs.append(ctx))
+                n = 0
+                for where in ("other", "owner"):
+                    for args, kwargs in SHAPES:
+                        tgt = ArgTarget()
+                        proxy = bt.ThreadsafeProxy(tgt, elt.loop)
+                        want = bound(args, kwargs)
+
+                        async def calls():
+                            proxy.plain(*args, **kwargs)
+                            r = proxy.coro(*args, **kwargs)
+                            return await asyncio.wait_for(r, 2)
+                        rc = await (calls() if where == "other" else elt.run_coroutine_threadsafe(calls()))
+                        await elt.run_coroutine_threadsafe(asyncio.sleep(0.01))
+                        n += 2
+                        got = {k: v for k, v, _ in tgt.seen}
+                        if rc != want or got.get("coro") != want:
+                            problems.append(f"coroutine call ({args}, {kwargs}) made from the {where} loop: executed with "
+                                            f"{got.get('coro')}, returned {rc}; the call made binds to {want}")
+                        if got.get("plain") != want:
+                            problems.append(f"plain call ({args}, {kwargs}) made from the {where} loop: executed with {got.get('plain')} "
+                                            f"(owner-loop errors: {[repr(c.get('exception')) for c in errs]}); the call made binds to {want}")
+                        if any(t != owner_tid for _, _, t in tgt.seen):
+                            problems.append(f"call ({args}, {kwargs}) from the {where} loop did not run on the owner's thread")
+                        del errs[:]
+                    tgt = ArgTarget()
+                    proxy = bt.ThreadsafeProxy(tgt, elt.loop)
+
+                    async def kwonly():
+                        proxy.plain_kwonly(15, page=2)
+                    await (kwonly() if where == "other" else elt.run_coroutine_threadsafe(kwonly()))
+                    await elt.run_coroutine_threadsafe(asyncio.sleep(0.01))
+                    n += 1
+                    if [v for _, v, _ in tgt.seen] != [(15, 2)]:
+                        problems.append(f"plain_kwonly(15, page=2) made from the {where} loop was executed as {[v for _, v, _ in tgt.seen]} "
+                                        f"(owner-loop errors: {[repr(c.get('exception')) for c in errs]})")
+                    del errs[:]
+                rep.cov["argument_forwarding_calls"] = n
+            finally:
+                elt.force_stop()
+                await asyncio.wait_for(elt.thread_complete, 5)
+
+        loop = asyncio.new_event_loop()
+        asyncio.set_event_loop(loop)
+        try:
+            loop.run_until_complete(asyncio.wait_for(main(), 30))
+        except BaseException as e:  # noqa
+            problems.append(f"the scenario crashed: {e!r}")
+        finally:
+            loop.close()
+        if problems:
+            rep.violation({"input": "calls with positional and keyword arguments through the proxy, from the owner's loop and from another one",
+                           "observed": problems[:6], "required": "the method is executed on the owner's loop with the arguments of the call that was made"},
+                          found_input=True, signature="proxy:arguments")
 
     def nontrivial(self, case, obs):
         return case["caller"] == "other"
